@@ -328,7 +328,7 @@ fn launch_rdp_thread<S: 'static + Read + Write + Send>(
     Ok(thread::spawn(move || {
         while wait_for_fd(handle as usize) && sync.load(Ordering::Relaxed) {
             let mut guard = rdp_client.lock().unwrap();
-            if let Err(Error::RdpError(e)) = guard.read(|event| {
+            match guard.read(|event| {
                 match event {
                     RdpEvent::Bitmap(bitmap) => {
                         bitmap_channel.send(bitmap).unwrap();
@@ -336,13 +336,21 @@ fn launch_rdp_thread<S: 'static + Read + Write + Send>(
                     _ => println!("{}: ignore event", APPLICATION_NAME)
                 }
             }) {
-                match e.kind() {
-                    RdpErrorKind::Disconnect => {
-                        println!("{}: Server ask for disconnect", APPLICATION_NAME);
-                    },
-                    _ => println!("{}: {:?}", APPLICATION_NAME, e)
-                }
-                break;
+                Err(Error::RdpError(e)) => {
+                    match e.kind() {
+                        RdpErrorKind::Disconnect => {
+                            println!("{}: Server ask for disconnect", APPLICATION_NAME);
+                        },
+                        _ => println!("{}: {:?}", APPLICATION_NAME, e)
+                    }
+                    break;
+                },
+                // Any other error (closed socket, TLS error) end the session too
+                Err(e) => {
+                    println!("{}: {:?}", APPLICATION_NAME, e);
+                    break;
+                },
+                Ok(()) => ()
             }
         }
     }))
